@@ -17,11 +17,27 @@ package l1infotreesync
 // ---- latest L1 info leaf at or below a block (C15): block 0 is refused, a block the syncer has not processed yet is
 // refused; the SELECT is pinned, its semantics assumed (A5)
 //@ ghost var l1LastProcessed int
-//@ func (p *processor) getLastProcessedBlockWithTx
-//@   trusted
-//@   sqltext "SELECT num FROM BLOCK ORDER BY num DESC LIMIT 1;"
+// the last processed block (the restart point of the download, C05; the bound of the oracle's look-ups, C15):
+// l1LastProcessed is the highest block row read as a block number, 0 when the table is empty (assumed at the library
+// boundary, A5); the function itself is proved: an empty table - and only that - is answered with block 0, a storage
+// failure is reported and never read as "nothing processed yet"
+//@ ghost var l1LastBlockScanFaults int
+//@ interface github.com/agglayer/aggkit/db/types.Querier.QueryRow@l1infotreesync.(*processor).getLastProcessedBlockWithTx (self, query, args)
 //@   modifies nothing
-//@   ensures result1 == nil ==> result0 == l1LastProcessed
+//@   ensures result != nil
+//@ extern (*database/sql.Row).Scan@l1infotreesync.(*processor).getLastProcessedBlockWithTx (r, dest)
+//@   requires len(dest) == 1 && typeIs(dest[0], *uint64) && cast(dest[0], *uint64) != nil
+//@   modifies *cast(dest[0], *uint64), l1LastBlockScanFaults
+//@   ensures l1LastBlockScanFaults == old(l1LastBlockScanFaults) + ite(result != nil && !isErr(result, sql.ErrNoRows), 1, 0)
+//@   ensures result == nil ==> *cast(dest[0], *uint64) == l1LastProcessed
+//@   ensures (result != nil && isErr(result, sql.ErrNoRows)) ==> l1LastProcessed == 0
+//@ func (p *processor) getLastProcessedBlockWithTx
+//@   props C05 C15
+//@   requires tx != nil
+//@   sqltext "SELECT num FROM BLOCK ORDER BY num DESC LIMIT 1;"
+//@   modifies l1LastBlockScanFaults
+//@   ensures[the-highest-block-row-or-zero-when-empty] result1 == nil ==> result0 == l1LastProcessed
+//@   ensures[a-storage-failure-is-reported] result1 == nil ==> l1LastBlockScanFaults == old(l1LastBlockScanFaults)
 
 //@ extern github.com/russross/meddler.QueryRow@l1infotreesync.(*processor).GetLatestInfoUntilBlock (db, dst, query, args)
 //@   modifies *cast(dst, *L1InfoTreeLeaf)
@@ -103,11 +119,26 @@ package l1infotreesync
 
 // ---- block processing of the L1 info tree store (C07 all-or-nothing, C14 fail-stop, C11 leaf indices)
 //@ ghost var l1LastIndex int
-//@ func (p *processor) getLastIndex
-//@   trusted
-//@   sqltext "SELECT position FROM l1info_leaf ORDER BY block_num DESC, block_pos DESC LIMIT 1;"
+// l1LastIndex: the position of the leaf the pinned SELECT ranks last, -1 when the table holds no leaf. The statement's
+// semantics are assumed at the library boundary (A5); getLastIndex itself is proved: only "no rows" becomes "not found"
+// (which ProcessBlock reads as "start at index 0"), every other failure stays a failure.
+//@ interface github.com/agglayer/aggkit/db/types.Querier.QueryRow@l1infotreesync.(*processor).getLastIndex (self, query, args)
 //@   modifies nothing
-//@   ensures result1 == nil ==> result0 == l1LastIndex
+//@   ensures result != nil
+//@ extern (*database/sql.Row).Scan@l1infotreesync.(*processor).getLastIndex (r, dest)
+//@   requires len(dest) == 1 && typeIs(dest[0], *uint32) && cast(dest[0], *uint32) != nil
+//@   modifies *cast(dest[0], *uint32)
+//@   ensures result != errvar("db.ErrNotFound")
+//@   ensures result == nil ==> l1LastIndex >= 0 && *cast(dest[0], *uint32) == l1LastIndex
+//@   ensures (result != nil && isErr(result, sql.ErrNoRows)) ==> l1LastIndex == -1
+//@   ensures (result != nil && !isErr(result, sql.ErrNoRows)) ==> !isErr(result, errvar("db.ErrNotFound"))
+//@ func (p *processor) getLastIndex
+//@   props C11
+//@   sqltext "SELECT position FROM l1info_leaf ORDER BY block_num DESC, block_pos DESC LIMIT 1;"
+//@   requires tx != nil
+//@   modifies nothing
+//@   ensures[the-last-position] result1 == nil ==> result0 == l1LastIndex && l1LastIndex >= 0
+//@   ensures[not-found-means-no-leaf] (result1 != nil && isErr(result1, db.ErrNotFound)) ==> l1LastIndex == -1
 
 //@ func processEventInitL1InfoRootMap
 //@   trusted
@@ -131,12 +162,12 @@ package l1infotreesync
 //@   ensures[halts-only-with-inconsistency-error] p.halted != old(p.halted) ==> p.halted && result == sync.ErrInconsistentState
 //@   ensures[inconsistency-report-means-halted] result == sync.ErrInconsistentState ==> p.halted
 //@   ensures[committed-only-if-every-statement-succeeded] result == nil ==> stmtFail == old(stmtFail)
-//@   ensures[leaf-indices-continue-the-stored-sequence] (result == nil && leafCalls != old(leafCalls)) ==> lastLeafIdx == (l1LastIndex + (leafCalls - old(leafCalls))) % 4294967296 || lastLeafIdx == (leafCalls - old(leafCalls) - 1) % 4294967296
+//@   ensures[leaf-indices-continue-the-stored-sequence] (result == nil && leafCalls != old(leafCalls)) ==> lastLeafIdx == (l1LastIndex + (leafCalls - old(leafCalls))) % 4294967296 && l1LastIndex >= -1
 //@   loop 0 invariant p.halted == old(p.halted) && !p.halted && p.log == old(p.log) && p.log != nil && p.l1InfoTree == old(p.l1InfoTree) && p.l1InfoTree != nil && p.l1InfoTree.Tree != nil && len(p.l1InfoTree.zeroHashes) == 33 && p.rollupExitTree == old(p.rollupExitTree) && p.rollupExitTree != nil && p.rollupExitTree.Tree != nil && len(p.rollupExitTree.zeroHashes) == 33 && p.l1InfoTree.Tree != p.rollupExitTree.Tree
 //@   loop 0 invariant rhtOK(rhtHas(p.l1InfoTree.Tree), rhtL(p.l1InfoTree.Tree), rhtR(p.l1InfoTree.Tree)) && rhtOK(rhtHas(p.rollupExitTree.Tree), rhtL(p.rollupExitTree.Tree), rhtR(p.rollupExitTree.Tree))
 //@   loop 0 invariant stmtFail == old(stmtFail)
 //@   loop 0 invariant tx != nil && lastTx == tx && tx != old(lastTx) && txState(tx) == 0
-//@   loop 0 invariant l1InfoLeavesAdded == leafCalls - old(leafCalls) && 0 <= l1InfoLeavesAdded && l1InfoLeavesAdded <= rangeindex + 1 && (initialL1InfoIndex == (l1LastIndex + 1) % 4294967296 || initialL1InfoIndex == 0)
+//@   loop 0 invariant l1InfoLeavesAdded == leafCalls - old(leafCalls) && 0 <= l1InfoLeavesAdded && l1InfoLeavesAdded <= rangeindex + 1 && initialL1InfoIndex == (l1LastIndex + 1) % 4294967296 && l1LastIndex >= -1
 //@   loop 0 invariant leafCalls != old(leafCalls) ==> lastLeafIdx == (initialL1InfoIndex + l1InfoLeavesAdded - 1) % 4294967296
 // the announced-root check (C11, C14): an iteration that handled a root announcement and went on has seen, as the tree's
 // last root inside the transaction, exactly the announced root at the announced leaf count; anything else leaves the loop
